@@ -231,7 +231,12 @@ def ListP.primitiveElem (l : ListP) (i : Int) (exp : ObjectSize) : Except Err In
     .error (.err "mismatched list element size")
   else
     let r := address_element l.off (wrapI32 i) (ObjectSize_totalSize l.size)
-    if !r.2 then .error (.err "read list element: address overflow") else .ok r.1
+    if !r.2 then .error (.err "read list element: address overflow") else
+    if l.flags = isCompositeList ∧ exp.PointerCount > 0 then
+      -- a list of pointers upgraded to a struct list: the element's first pointer (fix D20)
+      let r2 := address_addSize r.1 l.size.DataSize
+      if !r2.2 then .error (.err "read list element: address overflow") else .ok r2.1
+    else .ok r.1
 
 /-- `PointerList.At(i)` -/
 def ListP.ptrAt (m : Msg) (l : ListP) (i : Int) (rl : Int) : Except Err Ptr × Int :=
